@@ -212,7 +212,9 @@ int main(int argc, char** argv) {
         //  (c) a layer whose root border is full below a layer-0 border that is full as well and holds the link in its upper half; the cursor
         //      is paused on the first key of the layer; the 16th key of the layer splits its root AND / OR a 16th short key splits the layer-0
         //      border (the link moves to the new border); resumed (F20: the layer must not be taken for removed)
-        for (int variant = 0; variant < 3; variant++) {
+        //  (d) = variant 3: the layer's root border is split by a 16th key and the border the cursor stands in (the old root) is emptied afterwards:
+        //      the interior root collapses, the saved layer root is a DELETED BORDER although the layer lives on (F21)
+        for (int variant = 0; variant < 4; variant++) {
             auto key9m = [](int x) { std::string k(8, 'm'); k.push_back((char)x); return k; };
             std::vector<std::string> ks; for (char c = 'a'; c <= 'h'; c++) ks.push_back(std::string(1, c)); for (char c = 'n'; c <= 's'; c++) ks.push_back(std::string(1, c));
             for (int i = 1; i <= 15; i++) ks.push_back(key9m(i));
@@ -222,9 +224,11 @@ int main(int argc, char** argv) {
             std::string o2 = "{\"op\":\"iscanmod\",\"l\":[],\"le\":\"INF\",\"r\":[],\"re\":\"INF\",\"rtl\":false,\"ea\":false,\"st\":\"" + std::string(vh::stname(rc)) + "\",\"steps1\":[";
             long got = 0; while (rc == status::OK) { std::string fk = ctx->full_key(); if (got) o2 += ","; o2 += "[" + vh::jbytes(fk) + "," + (val ? std::to_string(*(int*)val) : std::string("-1")) + "]"; got++; if (fk.size() == 9) break; rc = iscan_next(ctx, val, cb); }
             o2 += "],\"st1\":\"" + std::string(vh::stname(rc)) + "\",\"mids\":["; bool f = true;
-            std::vector<std::string> ins; if (variant != 1) ins.push_back(key9m(16)); if (variant != 2) ins.push_back("t");
+            std::vector<std::string> ins; if (variant != 1) ins.push_back(key9m(16)); if (variant != 2 && variant != 3) ins.push_back("t");
             for (auto& k : ins) { int vid = ++vctr; int buf[2] = {vid, 0}; status mrc = put<char>(tok, st, k, (char*)buf, 8); if (mrc == status::OK) present[k] = true; if (std::find(keys.begin(), keys.end(), k) == keys.end()) keys.push_back(k);
                 if (!f) o2 += ","; f = false; o2 += "{\"op\":\"put\",\"k\":" + vh::jbytes(k) + ",\"v\":" + std::to_string(vid) + ",\"st\":\"" + vh::stname(mrc) + "\"}"; ks.push_back(k); }
+            if (variant == 3) for (int i = 1; i <= 8; i++) { std::string k = key9m(i); status mrc = remove(tok, st, k); if (mrc == status::OK) present[k] = false;
+                if (!f) o2 += ","; f = false; o2 += "{\"op\":\"rem\",\"k\":" + vh::jbytes(k) + ",\"v\":0,\"st\":\"" + vh::stname(mrc) + "\"}"; }
             o2 += "],\"steps2\":["; long n2 = 0; rc = iscan_next(ctx, val, cb);
             while (rc == status::OK) { std::string fk = ctx->full_key(); if (n2) o2 += ","; o2 += "[" + vh::jbytes(fk) + "," + (val ? std::to_string(*(int*)val) : std::string("-1")) + "]"; n2++; if (n2 > 400) break; rc = iscan_next(ctx, val, cb); }
             o2 += "],\"end\":\"" + std::string(vh::stname(rc)) + "\""; { vh::Canon c2(ti); o2 += ",\"dump\":" + vh::dump_json(c2, valjson); } o2 += "}"; puts(o2.c_str()); if (ctx) iscan_close(ctx); have_read = false;
